@@ -7,6 +7,7 @@ from ..gen import J, JI
 from . import lincommon as lc
 
 PROP = "C14"
+HOSTILE = ('scale',)
 MONITORS = ("WF",)
 ANCHORS = [("factor.py", "ConjugateFactor._integrate_log_factor"),
            ("measure.py", "GaussianMeasure.integrate_log_factor"),
@@ -250,5 +251,8 @@ def run_feature(cell, rec, seed):
 
 
 def run_cell(cell, rec, seed):
+    if cell["part"] == "feature":
+        with gen.calm():  # kernels have an intrinsic O(1) length scale
+            return run_feature(cell, rec, seed)
     {"logfactor": run_logfactor, "linear": run_linear, "feature": run_feature}[cell["part"]](
         cell, rec, seed)
